@@ -293,3 +293,227 @@ theorem BInv.addDef
   · rw [Map.get_set_other _ _ _ _ hn]; exact this
 
 end SM
+
+namespace SM
+open Map
+
+/-- a bank change that leaves the deposit account's balance as it was -/
+theorem invB_bank {s : State} {bank' : Bank} (h : InvB s)
+    (hb : balOf bank'.bal s.cfg.deposit = balOf s.bank.bal s.cfg.deposit) :
+    InvB { s with bank := bank' } := by
+  show BInv _ _ (balOf bank'.bal s.cfg.deposit) _ _ _ _ _ _
+  rw [hb]; exact h
+
+theorem define_invB (s : State) (n : SvcName) (a : Addr) (h : InvB s) : InvB (define s n a).1 := by
+  op_split define
+  · exact h
+  · exact BInv.addDef h n _
+
+theorem storedPricing_of_get {s : State} {svc : SvcName} {p : Addr} {pr : Pricing}
+    (h : Map.get s.pricing (svc, p) = some pr) : storedPricing s svc p = pr := by
+  simp [storedPricing, h]
+
+theorem disable_invB (s : State) (svc : SvcName) (p o : Addr) (h : InvB s) : InvB (disable s svc p o).1 := by
+  op_split disable
+  all_goals first
+    | exact h
+    | (rename_i b hb _ _
+       exact BInv.updateBinding h hb rfl rfl (by simp) (by simp))
+
+theorem refund_invB (s : State) (svc : SvcName) (p o : Addr) (h : InvB s) (hst : InvStatic s) :
+    InvB (refund s svc p o).1 := by
+  op_split refund
+  all_goals first
+    | exact h
+    | (rename_i b hb _ hav _ _ _ bank' hsend
+       have hown := h.ownerOk _ _ hb
+       have hne : s.cfg.deposit ≠ b.owner := fun e => hown (Or.inr (Or.inl e.symm))
+       refine BInv.updateBinding h hb rfl rfl ?_ ?_
+       · show balOf bank'.bal s.cfg.deposit + b.deposit = balOf s.bank.bal s.cfg.deposit + 0
+         have h1 := bankSend_src hsend hne
+         have h2 := bankSend_le hsend
+         omega
+       · intro hav'; simp at hav hav'; rw [hav'] at hav; simp at hav)
+
+end SM
+
+namespace SM
+open Map
+
+theorem enable_invB (s : State) (svc : SvcName) (p o : Addr) (dep : Option Nat) (h : InvB s)
+    (hw : ¬ s.modAcct o) : InvB (enable s svc p o dep).1 := by
+  op_split enable
+  all_goals first
+    | exact h
+    | (rename_i _ b hb hown hav hov _ md hmd hge _ bank' hsend hz
+       obtain ⟨pr, hpr, _, _⟩ := h.priced _ _ hb
+       have hsp : storedPricing s svc p = pr := storedPricing_of_get hpr
+       refine BInv.updateBinding h hb rfl rfl ?_ ?_
+       · show balOf bank'.bal s.cfg.deposit + b.deposit = balOf s.bank.bal s.cfg.deposit + (b.deposit + dep.getD 0)
+         cases dep with
+         | none => simp at hsend; subst hsend; simp
+         | some d =>
+           simp at hsend
+           have hne : o ≠ s.cfg.deposit := fun e => hw (Or.inr (Or.inl e))
+           have := bankSend_dst hsend hne
+           simp; omega
+       · intro _
+         refine ⟨pr, md, hpr, by rw [← hsp]; exact hmd, ?_⟩
+         simp at hge ⊢; omega)
+
+end SM
+
+namespace SM
+open Map
+
+theorem newTerms_ok {s : State} {svc : SvcName} {p : Addr} {text : Option PricingText} {pr : Pricing}
+    (h : newTerms s svc p text = .ok pr) :
+    (text = none ∧ pr = storedPricing s svc p) ∨
+    (∃ t, text = some t ∧ parsePricing t = .ok pr ∧ validPricing pr = true) := by
+  unfold newTerms at h
+  cases text with
+  | none => left; simp at h; exact ⟨rfl, by rw [← h]; rfl⟩
+  | some t =>
+    right
+    simp only at h
+    cases hp : parsePricing t with
+    | bad => rw [hp] at h; simp at h
+    | overflow => rw [hp] at h; simp at h
+    | ok q =>
+      rw [hp] at h; simp only at h
+      split at h
+      · simp at h
+      · injection h with h; subst h
+        exact ⟨t, rfl, hp, by simpa using ‹¬ (!validPricing q) = true›⟩
+
+theorem minCheck_none {params : Params} {b : Binding} {upd : Bool} {p : Pricing}
+    (h : minCheck params b upd p = none) (hav : b.avail = true) (hu : upd = true) :
+    ∃ md, minDeposit params p = some md ∧ md ≤ b.deposit := by
+  unfold minCheck at h
+  simp only [hav, hu, and_self, if_true] at h
+  cases hm : minDeposit params p with
+  | none => rw [hm] at h; simp at h
+  | some md =>
+    rw [hm] at h; simp only at h
+    split at h
+    · simp at h
+    · exact ⟨md, rfl, by omega⟩
+
+theorem dep_send_bal {s : State} {o : Addr} {dep : Option Nat} {bank' : Bank}
+    (hsend : (if dep.isSome = true then bankSend s.bank o s.cfg.deposit (dep.getD 0) else some s.bank) = some bank')
+    (hne : o ≠ s.cfg.deposit) :
+    balOf bank'.bal s.cfg.deposit = balOf s.bank.bal s.cfg.deposit + dep.getD 0 := by
+  cases dep with
+  | none => simp at hsend; subst hsend; simp
+  | some d => simp at hsend; simpa using bankSend_dst hsend hne
+
+theorem update_invB (s : State) (svc : SvcName) (p o : Addr) (dep : Option Nat) (text : Option PricingText) (qos : Nat)
+    (h : InvB s) (hw : ¬ s.modAcct o) : InvB (update s svc p o dep text qos).1 := by
+  have hne : o ≠ s.cfg.deposit := fun e => hw (Or.inr (Or.inl e))
+  unfold update
+  cases hb : Map.get s.bindings (svc, p) with
+  | none => exact h
+  | some b =>
+    dsimp only
+    split; · exact h
+    split; · exact h
+    split; · exact h
+    cases hnt : newTerms s svc p text with
+    | error r => exact h
+    | ok pr =>
+      dsimp only
+      split; · exact h
+      rename_i hmc
+      cases hsend : (if dep.isSome = true then bankSend s.bank o s.cfg.deposit (dep.getD 0) else some s.bank) with
+      | none => exact h
+      | some bank' =>
+        dsimp only
+        split
+        · rename_i hupd
+          have hbal : balOf bank'.bal s.cfg.deposit + b.deposit = balOf s.bank.bal s.cfg.deposit + (b.deposit + dep.getD 0) := by
+            rw [dep_send_bal hsend hne]; omega
+          rcases newTerms_ok hnt with ⟨h1, h2⟩ | ⟨t, h1, h2, h3⟩
+          · subst h1
+            obtain ⟨pr0, hpr, _, _⟩ := h.priced _ _ hb
+            rw [storedPricing_of_get hpr] at h2; subst h2
+            refine BInv.updateBinding h hb rfl rfl hbal ?_
+            intro hav
+            obtain ⟨md, hm1, hm2⟩ := minCheck_none hmc hav hupd
+            exact ⟨_, md, hpr, hm1, hm2⟩
+          · subst h1
+            refine BInv.updateBindingPricing h hb rfl ⟨h2, h3⟩ hbal ?_
+            intro hav
+            exact minCheck_none hmc hav hupd
+        · rename_i hupd
+          have hd : dep = none := by
+            cases dep with
+            | none => rfl
+            | some d => simp at hupd
+          subst hd; simp at hsend; subst hsend; exact h
+end SM
+
+namespace SM
+open Map
+
+theorem bind_invB (s : State) (svc : SvcName) (p o : Addr) (dep : Option Nat) (text : PricingText) (qos : Nat)
+    (h : InvB s) (hw : ¬ s.modAcct o) : InvB (bind s svc p o dep text qos).1 := by
+  have hne : o ≠ s.cfg.deposit := fun e => hw (Or.inr (Or.inl e))
+  unfold bind
+  split; · exact h
+  split; · exact h
+  split; · exact h
+  dsimp only
+  split; · exact h
+  rename_i hmods hdef hnob hown
+  cases dep with
+  | none => exact h
+  | some d =>
+    dsimp only
+    split; · exact h
+    cases hpp : parsePricing text with
+    | bad => exact h
+    | overflow => exact h
+    | ok pr =>
+      dsimp only
+      split; · exact h
+      rename_i hvalid
+      cases hmd : minDeposit s.params pr with
+      | none => exact h
+      | some md =>
+        dsimp only
+        split; · exact h
+        rename_i hge
+        cases hsend : bankSend s.bank o s.cfg.deposit d with
+        | none => exact h
+        | some bank' =>
+          dsimp only
+          have hnone : Map.get s.bindings (svc, p) = none := by
+            cases hx : Map.get s.bindings (svc, p) with
+            | none => rfl
+            | some _ => rw [hx] at hnob; simp at hnob
+          have hdef' : (Map.get s.defs svc).isSome = true := by
+            cases hx : Map.get s.defs svc with
+            | none => rw [hx] at hdef; simp at hdef
+            | some _ => rfl
+          have hown' : Map.get s.owner p = none ∨ Map.get s.owner p = some o := by
+            cases hx : Map.get s.owner p with
+            | none => left; rfl
+            | some o2 =>
+              right
+              rw [hx] at hown
+              simp at hown
+              rw [hown]
+          have hbal : balOf bank'.bal s.cfg.deposit = balOf s.bank.bal s.cfg.deposit + d := bankSend_dst hsend hne
+          have key := BInv.addBinding h (b := { owner := o, deposit := d, avail := true, disabledAt := zeroTime, qos := qos, text := text })
+            hnone hdef' hown' rfl rfl hw hpp (by simpa using hvalid) ⟨md, hmd, by simp at hge; omega⟩
+          split
+          · rename_i hn
+            simp only [hn, if_true] at key
+            show BInv _ _ (balOf bank'.bal s.cfg.deposit) _ _ _ _ _ _
+            rw [hbal]; exact key
+          · rename_i hn
+            simp only [hn, if_false] at key
+            show BInv _ _ (balOf bank'.bal s.cfg.deposit) _ _ _ _ _ _
+            rw [hbal]; exact key
+
+end SM
